@@ -255,6 +255,7 @@ def run(ctx):
     dualasm.dual1_assembly(ctx)  # attachment of the DUAL1 dofs to their element / edges / vertices
     spaces.normal_multipliers(ctx)
     spaces.coefficient_maps(ctx)
+    spaces.localised_inherit(ctx)
     c16.colouring(ctx)
     c16.aliasing(ctx)
     spaces.dof_by_entity(ctx)
